@@ -23,7 +23,7 @@ class OptV:
 def parse_from_tags(chk):
     prog = chk.prog
     t = prog.tables
-    body = prog.find('basic.rs:125:1: 125:18>::parse_from_tags')
+    body = common.find_method(prog, 'RetryOptions', 'parse_from_tags')
     pt = prog.bodies.get(body.name + '::{closure#0}')
     if pt is None:
         raise Inconclusive('parse_tags closure not found')
@@ -243,6 +243,11 @@ def body(chk):
     parse_from_tags(chk)
     from checks import run_prefix
     run_prefix.obligations(chk, 'C18')
+    # the retry tag filter's verdict is TagOperation::eval's (a recorder above): its semantics, the empty tag list included
+    from checks import c15
+    c15.eval_obligation(chk, 'C18', {})
+    from checks import builder_defaults
+    builder_defaults.setters(chk, 'C18', which=('retries', 'retry_after', 'max_concurrent_scenarios', 'fail_fast'))
 
 
 if __name__ == '__main__':
